@@ -44,6 +44,16 @@ fn strip_positions(s: &str) -> String {
                 break;
             }
         }
+        if !matched && rest.starts_with("implicit?") {
+            // the generated name of a `?` import carries a byte position
+            let mut j = i + "implicit?".len();
+            while j < b.len() && b[j].is_ascii_digit() {
+                j += 1;
+            }
+            out.push_str("implicit?@");
+            i = j;
+            matched = true;
+        }
         if !matched {
             let c = rest.chars().next().unwrap();
             out.push(c);
@@ -134,9 +144,12 @@ pub fn check(vm: &RootedThread, src: &str) -> Verdict {
     let f1 = match format(vm, src) {
         Fmt::Ok(s) => s,
         Fmt::Refused(e) => {
-            // format_expr also expands macros; an input that parses but is refused for another
-            // reason is outside the statement ("any program that parses yields text …") only if
-            // the refusal is a parse error of the input itself.
+            // `format_expr` refuses on parse errors; an operator chain with conflicting or
+            // missing fixities at a definition is reported by the infix re-parse, which is part
+            // of parsing: outside the precondition.
+            if e.contains("Conflicting fixities") || e.contains("No fixity specified") {
+                return Verdict::Skip("infix-error");
+            }
             return fail("refused", e.chars().take(300).collect(), None, None);
         }
         Fmt::Panic(p) => return fail("panic", p, None, None),
